@@ -218,8 +218,95 @@ def gen_io_aliases():
     return rows
 
 
+# ---------------------------------------------------------------------------------------------
+# xopen dispatch + which read_/write_ methods go through xopen (C12)
+
+
+def xopen_table():
+    tree = ast.parse(src("dataiter/util.py"))
+    fn = [n for n in tree.body if isinstance(n, ast.FunctionDef) and n.name == "xopen"][0]
+    rows = []
+    for n in fn.body:
+        if isinstance(n, ast.If) and "endswith" in ast.unparse(n.test):
+            suffix = n.test.args[0].value if isinstance(n.test, ast.Call) else "?"
+            for m in ast.walk(n):
+                if isinstance(m, ast.Return) and isinstance(m.value, ast.Call):
+                    c = m.value
+                    rows.append((suffix, ast.unparse(c.func), [ast.unparse(a) for a in c.args],
+                                 any(k.arg is None for k in c.keywords)))
+        elif isinstance(n, ast.Return) and isinstance(n.value, ast.Call):
+            c = n.value
+            rows.append(("", ast.unparse(c.func), [ast.unparse(a) for a in c.args], any(k.arg is None for k in c.keywords)))
+    return rows
+
+
+def io_sites():
+    rows = []
+    for path, cls in (("dataiter/data_frame.py", "DataFrame"), ("dataiter/list_of_dicts.py", "ListOfDicts"), ("dataiter/geojson.py", "GeoJSON")):
+        t = ast.parse(src(path))
+        for c in t.body:
+            if not (isinstance(c, ast.ClassDef) and c.name == cls):
+                continue
+            for f in c.body:
+                if not isinstance(f, ast.FunctionDef):
+                    continue
+                if not (f.name.startswith("read_") or f.name.startswith("write_") or (cls == "GeoJSON" and f.name in ("read", "write"))):
+                    continue
+                modes, raw, delegates = [], [], []
+                for m in ast.walk(f):
+                    if isinstance(m, ast.Call):
+                        fn = ast.unparse(m.func)
+                        args = [ast.unparse(a) for a in m.args]
+                        if fn == "util.xopen":
+                            mode = args[1].strip("'\"") if len(args) > 1 else "r"
+                            modes.append(mode)
+                        elif fn == "util.makedirs_for_file":
+                            pass
+                        elif "path" in args:
+                            if fn.startswith("self.") or fn.startswith("cls."):
+                                delegates.append(fn)
+                            else:
+                                raw.append(fn)
+                        if fn.endswith(".write_json") or fn.endswith(".write_csv"):
+                            if fn not in delegates and "path" in args:
+                                delegates.append(fn)
+                rows.append({"cls": cls, "name": f.name, "modes": sorted(set(modes)), "raw": sorted(set(raw)), "delegates": sorted(set(delegates))})
+    return rows
+
+
+def gen_io_sites():
+    xr = xopen_table()
+    sites = io_sites()
+
+    def ll(xs):
+        return "[" + ", ".join(lean_str(x) for x in xs) + "]"
+    out = ["/- GENERATED by harness/extract_ast.py from dataiter/util.py (xopen) and the read_/write_ methods — do not edit. -/",
+           "namespace DI.Gen", "",
+           "/-- one branch of `util.xopen`: path suffix (\"\" = fall-through), opener, positional arguments, forwards **kwargs? -/",
+           "def xopenBranches : List (String × String × List String × Bool) := ["]
+    out.append(",\n".join(f"  ({lean_str(a)}, {lean_str(b)}, {ll(c)}, {'true' if d else 'false'})" for a, b, c, d in xr))
+    out.append("]")
+    out.append("")
+    out.append("structure IoSite where")
+    out.append("  cls : String")
+    out.append("  name : String")
+    out.append("  xopenModes : List String      -- modes of the util.xopen(path, mode) calls in the body")
+    out.append("  rawPath : List String         -- library calls that receive `path` directly")
+    out.append("  delegates : List String       -- other methods of the package the path is handed to")
+    out.append("  deriving Repr, DecidableEq")
+    out.append("")
+    out.append("def ioSites : List IoSite := [")
+    out.append(",\n".join(f"  ⟨{lean_str(r['cls'])}, {lean_str(r['name'])}, {ll(r['modes'])}, {ll(r['raw'])}, {ll(r['delegates'])}⟩" for r in sites))
+    out.append("]")
+    out.append("")
+    out.append("end DI.Gen")
+    write_if_changed(os.path.join(GEN, "IoSites.lean"), "\n".join(out) + "\n")
+    return xr, sites
+
+
 def main():
     os.makedirs(GEN, exist_ok=True)
+    gen_io_sites()
     gen_helper_table()
     gen_io_aliases()
 
